@@ -567,3 +567,130 @@ def wrap_calls(text, pat, before, after):
         last = b
     out.append(text[last:])
     return ''.join(out), len(spans)
+
+
+def r3_inline_helpers(body, src, known, self_name, depth=2, only=None):
+    """R3h: a call `self.h(args)` / `Self::h(args)` of a helper that the unit has no text for (neither an extract nor a
+    stub) but that is defined exactly once in the same source file, without `return` / `?` in its body, is replaced
+    by `{ let (params) = (args); <the helper's body> }` - the meaning of the call.  Extracting a few statements into
+    a private helper (or the reverse) is therefore not a change of the verified text's meaning."""
+    fired = []
+    sm = mask(src)
+    defs = {}
+    for mo in re.finditer(r'\bfn\s+(\w+)', sm):
+        k, dp = mo.end(), 0
+        while k < len(sm):
+            ch = sm[k]
+            if ch in '([':
+                dp += 1
+            elif ch in ')]':
+                dp -= 1
+            elif ch == '{' and dp == 0:
+                break
+            elif ch == ';' and dp == 0:
+                k = -1
+                break
+            k += 1
+        if k < 0 or k >= len(sm):
+            continue
+        defs.setdefault(mo.group(1), []).append((mo.start(), mo.end(), k, match_close(sm, k)))
+    for _ in range(depth):
+        m = mask(body)
+        changed = False
+        out, last = [], 0
+        for mo in re.finditer(r'(\bself\s*\.\s*|\bSelf\s*::\s*)(\w+)\s*\(', m):
+            name = mo.group(2)
+            if mo.start() < last or name in known or name == self_name or name not in defs or len(defs[name]) != 1 or (only is not None and name not in only):
+                continue
+            fs, fe, bo, bc = defs[name][0]
+            hbody, hm = src[bo:bc + 1], sm[bo:bc + 1]
+            if re.search(r'\breturn\b|\?', hm) or re.search(r'\b(loop|while|for)\b', hm) and re.search(r'\bbreak\b', hm) is None and False:
+                continue
+            # parameters
+            po = sm.index('(', fe)
+            pc = match_close(sm, po, '(', ')')
+            params = [x.strip() for x in split_top_commas((src[po + 1:pc], sm[po + 1:pc])) if x.strip()]
+            is_method = bool(params) and re.match(r'^(&\s*(\'\w+\s+)?(mut\s+)?)?self\b', params[0]) is not None
+            via_self = m[mo.start():mo.end()].lstrip().startswith('self')
+            if via_self != is_method:
+                continue
+            if is_method:
+                params = params[1:]
+            pats = []
+            ok = True
+            for prm in params:
+                pm = mask(prm)
+                c = pm.find(':')
+                if c < 0:
+                    ok = False
+                    break
+                pats.append(prm[:c].strip())
+            if not ok:
+                continue
+            ao = mo.end() - 1
+            ac = match_close(m, ao, '(', ')')
+            args = [x.strip() for x in split_top_commas((body[ao + 1:ac], m[ao + 1:ac])) if x.strip()]
+            if len(args) != len(pats):
+                continue
+            if pats:
+                rep = '{ let (%s,) = (%s,); %s }' % (', '.join(pats), ', '.join(args), hbody)
+            else:
+                rep = '{ %s }' % hbody
+            out.append(body[last:mo.start()])
+            out.append(rep)
+            last = ac + 1
+            fired.append(name)
+            changed = True
+        out.append(body[last:])
+        body = ''.join(out)
+        if not changed:
+            break
+    return body, fired
+
+
+def r7_closure_wildcard_param(text):
+    """R7i: a closure parameter `_` (`|_| E`, `|_, x| E`) is given a name (`_vx_ignored`): same meaning; the verifier
+    accepts only variables as closure parameters."""
+    m = mask(text)
+    out, last, n = [], 0, 0
+    for mo in re.finditer(r'\|([^|{};]*)\|', m):
+        inner = mo.group(1)
+        if not re.search(r'(^|,)\s*_\s*(,|:|$)', inner):
+            continue
+        # make sure this is a closure header: preceded by `(`, `,`, `=`, `move`, `{`, or start
+        pre = m[:mo.start()].rstrip()
+        if pre and not (pre[-1] in '(,={;' or pre.endswith('move') or pre.endswith('return')):
+            continue
+        k = [0]
+        def nm(q):
+            k[0] += 1
+            return '%s_vx_ignored%d%s' % (q.group(1), k[0], q.group(2))
+        new_inner = re.sub(r'(^|,\s*)_(\s*(?:,|:|$))', nm, text[mo.start(1):mo.end(1)])
+        new_inner = re.sub(r'(^|,\s*)_(\s*(?:,|:|$))', nm, new_inner)
+        out.append(text[last:mo.start(1)])
+        out.append(new_inner)
+        last = mo.end(1)
+        n += 1
+    out.append(text[last:])
+    return ''.join(out), n
+
+
+def r7_map_or_literal(text):
+    """R7g: `X.map_or(LIT, |p| E)` with a literal default (`true`/`false`/number) -> `match X { None => LIT, Some(p) => E }`
+    (the definition of Option::map_or; the default is a literal, so evaluating it eagerly or not is the same)."""
+    fired = 0
+    while True:
+        m = mask(text)
+        mo = re.search(r'\.\s*map_or\(\s*(true|false|\d+)\s*,\s*\|\s*([A-Za-z_]\w*)\s*\|', m)
+        if not mo:
+            break
+        op = m.index('(', mo.start())
+        cl = match_close(m, op, '(', ')')
+        body = text[mo.end():cl].strip()
+        # receiver: walk left over the method chain
+        a, _ = _call_extent(m, mo.start(), op)
+        recv = text[a:mo.start()]
+        rep = 'match %s { None => %s, Some(%s) => %s }' % (recv, mo.group(1), mo.group(2), body)
+        text = text[:a] + rep + text[cl + 1:]
+        fired += 1
+    return text, fired
